@@ -54,6 +54,21 @@ pub fn run(tier: Tier) -> i32 {
             progs.push(p);
         }
     }
+    // one program longer than 4 KiB whose last copies reach back further than 4096 (and further than any small number a
+    // header field may hold) but stay inside the 64 KiB dictionary of the header
+    {
+        let mut p: Vec<Sym> = (0..300u32).map(|i| Sym::L((i * 37 + i / 5 + 1) as u8)).collect();
+        let mut produced = 300u32;
+        let mut k = 0u32;
+        while produced < 5000 {
+            let l = 20 + (k * 13) % 200;
+            p.push(Sym::M(1 + (k * 29) % 280, l));
+            produced += l;
+            k += 1;
+        }
+        p.extend([Sym::M(4500, 10), Sym::L(0x42), Sym::M(produced - 3, 4), Sym::L(0x43)]);
+        progs.push(p);
+    }
     let all1 = u64::MAX;
     let mut cells: Vec<(usize, bool, Option<u64>, SizeOpt, bool, Runner)> = Vec::new();
     for pi in 0..progs.len() {
@@ -72,7 +87,8 @@ pub fn run(tier: Tier) -> i32 {
                     for h in &hv {
                         cells.push((pi, marker, Some(*h), SizeOpt::Header, trailing, runner));
                     }
-                    for h in [all1, n, n + 1] {
+                    for h in [all1, n, n + 1, 0, 7] {
+                        // (0 and 7: a field that is to be ignored may hold anything)
                         cells.push((pi, marker, Some(h), SizeOpt::HeaderProvided(None), trailing, runner));
                         for s in svals(n) {
                             cells.push((pi, marker, Some(h), SizeOpt::HeaderProvided(Some(s)), trailing, runner));
